@@ -11,7 +11,15 @@ RULE = ("hdk.derive(seed, path) events compared with an independent BIP-32 CKDpr
         "normal below hardened; distinct = distinct (seed, path); non-trivial = 32-byte key compared")
 REQUIRED = (["depth-%d" % d for d in range(1, 9)] + ["all-hardened", "all-normal", "normal-below-hardened", "hardened-below-normal",
             "index-0", "index-1", "index-2^31-1", "index-byte-distinct", "seedlen-16", "seedlen-32", "seedlen-64", "seedlen-other",
-            "bip44-shape"])
+            "bip44-shape", "parent-key-1-zero-bytes", "parent-chaincode-1-zero-bytes", "parent-key-3-zero-bytes", "parent-chaincode-3-zero-bytes",
+            "final-key-3-zero-bytes"])
+# Nodes with a rare shape, found by an offline search (2^24..2^25 HMACs each) from the seed bytes(range(64)): the hardened child
+# m/6686995' has a chain code starting 000000, m/14768256' a private key starting 000000, m/25157348' an I_L starting 000000,
+# m/5640992' an I_L starting ffffff. By volume such nodes appear once per 2^24 derivation steps, i.e. never.
+RARE_SEED = bytes(range(64))
+RARE_NODES = [6686995, 14768256, 25157348, 5640992]
+# 32-byte seeds whose master chain code / master key starts 000000 (same kind of search over counter seeds)
+RARE_MASTERS = ["%064x" % 0x9aba9d, "%064x" % 0x12d963a]
 SEED_LENS = [0, 1, 15, 16, 17, 31, 32, 33, 63, 64, 65, 127, 128, 129, 255, 256, 257, 300, 511, 512, 513, 1000, 4096, 65536]
 IDX = [0, 1, 2, 2**31 - 1, 2**31 - 2, 0x01020304, 0x7fEDCBA9, 0x00ff00ff, 0x7f000001, 255, 256, 65535, 65536, 2**24, 44, 60]
 
@@ -26,7 +34,8 @@ def judge_derive(case, obs):
     assert comps is not None, req["path"]
     seed = bytes.fromhex(req["seed"])
     try:
-        want = eth.bip32_derive(seed, comps)
+        trace = eth.bip32_trace(seed, comps)
+        want = trace[-1][0]
     except eth.InvalidChild:
         if "ok" in o:
             v.bad("C03/invalid-child/derived", "a key was returned where BIP-32 declares the child invalid")
@@ -38,6 +47,15 @@ def judge_derive(case, obs):
     if o["ok"]["address"] != eth.address_of_key(want):
         v.bad("C03/%s/address-mismatch" % case["x"]["cls"], "address of the derived key differs from the reference")
     d = len(comps)
+    # rare shapes of the intermediate nodes (each must be used as the full 32 bytes it is): measured on the reference trace
+    for lvl, (k, c) in enumerate(trace):
+        where = "final" if lvl == d else "parent"
+        kz = 32 - (k.bit_length() + 7) // 8
+        cz = len(c) - len(c.lstrip(b"\x00"))
+        if kz:
+            v.bucket("%s-key-%d-zero-bytes" % (where, min(kz, 3)))
+        if cz and lvl < d:
+            v.bucket("parent-chaincode-%d-zero-bytes" % min(cz, 3))
     v.bucket("depth-%d" % d if d <= 8 else "depth-9+")
     hs = [h for _, h in comps]
     if all(hs):
@@ -66,7 +84,7 @@ JUDGES = {"derive": judge_derive}
 
 def shards(tier, seed):
     T = tier == "thorough"
-    return [{"name": "derive-%d" % i, "count": 8000 if T else 700} for i in range(16)]
+    return [{"name": "derive-%d" % i, "count": 8000 if T else 700, "first": i == 0} for i in range(16)]
 
 
 def rand_index(rng):
@@ -99,6 +117,15 @@ def rand_path(rng):
 def gen(shard, rng, tier):
     # pools: the same seed with another path and the same path with another seed inside one server process
     pool_seed, pool_path = [], []
+    if shard.get("first"):
+        for node in RARE_NODES:
+            yield from both(lib_case("derive", {"op": "hdk.derive", "seed": RARE_SEED.hex(), "path": "m/%d'" % node}, {"cls": "rare-node"}))
+            for tail in ([(0, False)], [(0, True)], [(1, False)], [(2**31 - 1, True)], [(44, True), (60, True), (0, True), (0, False), (0, False)],
+                         [(rand_index(rng), rng.random() < 0.5) for _ in range(3)]):
+                yield from both(lib_case("derive", {"op": "hdk.derive", "seed": RARE_SEED.hex(), "path": eth.format_path([(node, True)] + tail)}, {"cls": "rare-node"}))
+        for sd in RARE_MASTERS:
+            for tail in ([(0, False)], [(0, True)], eth.default_path(0), [(rand_index(rng), rng.random() < 0.5) for _ in range(3)]):
+                yield from both(lib_case("derive", {"op": "hdk.derive", "seed": sd, "path": eth.format_path(tail)}, {"cls": "rare-node"}))
     for _ in range(shard["count"]):
         if pool_seed and rng.random() < 0.3:
             seed = rng.choice(pool_seed)
